@@ -284,3 +284,94 @@ Proof.
   - unfold py_between. destruct (qof v) as [q|]; [|reflexivity].
     destruct (Qleb (min_p s) q && Qleb q (max_p s)); reflexivity.
 Qed.
+
+(* ---- exactly when the constructor raises ---- *)
+
+Lemma py_ge_spec x y :
+  match py_ge x y with
+  | None => qof x = None \/ qof y = None
+  | Some true => qof x <> None /\ qof y <> None /\ qval y <= qval x
+  | Some false => qof x <> None /\ qof y <> None /\ qval x < qval y
+  end.
+Proof.
+  unfold py_ge, py_le, qval. destruct (qof y) as [b|]; destruct (qof x) as [a|];
+    try (left; reflexivity); try (right; reflexivity).
+  destruct (Qleb b a) eqn:E.
+  - apply Qleb_true in E. repeat split; try discriminate. exact E.
+  - apply Qleb_false in E. repeat split; try discriminate. exact E.
+Qed.
+
+Lemma ctor_raises a :
+  let mina := dflt servo_default_min_angle (a_min_a a) in
+  let maxa := dflt servo_default_max_angle (a_max_a a) in
+  let minp := dflt servo_default_min_pulse (a_min_p a) in
+  let maxp := dflt servo_default_max_pulse (a_max_p a) in
+  match servo_ctor a with
+  | inl _ => qval mina < qval maxa /\ qval minp < qval maxp /\
+             qof mina <> None /\ qof maxa <> None /\ qof minp <> None /\ qof maxp <> None
+  | inr TypeError => qof mina = None \/ qof maxa = None \/
+                     (qval mina < qval maxa /\ (qof minp = None \/ qof maxp = None))
+  | inr ValueError => (qof mina <> None /\ qof maxa <> None /\ qval maxa <= qval mina) \/
+                      (qval mina < qval maxa /\ qof minp <> None /\ qof maxp <> None /\ qval maxp <= qval minp)
+  end.
+Proof.
+  cbn zeta. unfold servo_ctor.
+  pose proof (py_ge_spec (dflt servo_default_min_angle (a_min_a a)) (dflt servo_default_max_angle (a_max_a a))) as Ha.
+  pose proof (py_ge_spec (dflt servo_default_min_pulse (a_min_p a)) (dflt servo_default_max_pulse (a_max_p a))) as Hp.
+  destruct (py_ge (dflt servo_default_min_angle (a_min_a a)) (dflt servo_default_max_angle (a_max_a a))) as [[|]|].
+  - left. exact Ha.
+  - destruct Ha as (A1 & A2 & A3).
+    destruct (py_ge (dflt servo_default_min_pulse (a_min_p a)) (dflt servo_default_max_pulse (a_max_p a))) as [[|]|].
+    + right. destruct Hp as (P1 & P2 & P3). repeat split; assumption.
+    + destruct Hp as (P1 & P2 & P3). repeat split; assumption.
+    + right. right. split; [exact A3 | exact Hp].
+  - destruct Ha as [Ha|Ha]; [left | right; left]; exact Ha.
+Qed.
+
+(* ---- more about the maps ---- *)
+
+Lemma map_endpoints s :
+  servo_cfg_ok s ->
+  a2p s (min_a s) == min_p s /\ a2p s (max_a s) == max_p s /\
+  p2a s (min_p s) == min_a s /\ p2a s (max_p s) == max_a s.
+Proof.
+  intros [Ha Hp]. unfold a2p, p2a. repeat split; field; intro E; lra.
+Qed.
+
+Lemma lin_strict lo hi lo' hi' x y :
+  lo < hi -> lo' < hi' -> x < y ->
+  lo' + ((x - lo) / (hi - lo)) * (hi' - lo') < lo' + ((y - lo) / (hi - lo)) * (hi' - lo').
+Proof.
+  intros Hs Hs' Hxy.
+  assert (Hpos : 0 < hi - lo) by lra.
+  assert (Hw : 0 < hi' - lo') by lra.
+  assert (Hd : (x - lo) / (hi - lo) < (y - lo) / (hi - lo)).
+  { unfold Qdiv. apply Qmult_lt_compat_r; [apply Qinv_lt_0_compat; exact Hpos | lra]. }
+  assert (Hm : ((x - lo) / (hi - lo)) * (hi' - lo') < ((y - lo) / (hi - lo)) * (hi' - lo')).
+  { apply Qmult_lt_compat_r; assumption. }
+  lra.
+Qed.
+
+Lemma map_monotone s x y :
+  servo_cfg_ok s -> x < y -> a2p s x < a2p s y /\ p2a s x < p2a s y.
+Proof.
+  intros [Ha Hp] Hxy. unfold a2p, p2a. split; apply lin_strict; assumption.
+Qed.
+
+Lemma getters_pure s :
+  sstep s SRead = (s, [], Ok (SFloat (cur_a s))) /\ sstep s SReadUs = (s, [], Ok (SFloat (cur_p s))).
+Proof. split; reflexivity. Qed.
+
+Lemma servo_events s op :
+  let r := sstep s op in
+  match op, sresult r with
+  | (SWrite _ | SWriteUs _), Ok _ => sevents r = [SLvl (cur_a (sstate r)) (cur_p (sstate r))]
+  | _, _ => sevents r = []
+  end.
+Proof.
+  cbn zeta. unfold sresult, sevents, sstate. destruct op as [v|v| |]; cbn [sstep].
+  - destruct (py_between (min_a s) (max_a s) v) as [[|]|]; reflexivity.
+  - destruct (py_between (min_p s) (max_p s) v) as [[|]|]; reflexivity.
+  - reflexivity.
+  - reflexivity.
+Qed.
